@@ -210,6 +210,50 @@ pub fn run(rep: &Report) -> i32 {
             }
         }
     }
+    // (1c) one template object instantiated with argument maps A, B, A again, and a clone of it with B: "same source,
+    // same arguments" must give the bytes of a template without history, whatever was instantiated before
+    {
+        let mut templates: Vec<(String, String)> = crate::families::static_family().into_iter().filter(|(n, _)| n.starts_with("P1") || n.starts_with("P4")).map(|(n, p)| (n, p.render())).collect();
+        templates.push(("inline-param-in-fn-and-main".into(), "fn limit() -> u32 {\n    param::LIMIT\n}\nfn main() {\n    let w: u32 = witness::W;\n    assert!(jet::lt_32(w, limit()));\n    assert!(jet::le_32(w, param::LIMIT));\n    let p: (u8, bool) = param::PAIR;\n}\n".into()));
+        let line = |t: &simfony::TemplateProgram, args: &[(String, crate::lang::Val, crate::lang::Ty)], debug: bool| -> String {
+            match drive::guard(|| t.instantiate(drive::argument_map(args), debug).map(|c| (c.commit().encode_to_vec(), c.commit().cmr()))) {
+                Ok(Ok((bytes, cmr))) => format!("ok {} {}", hex(&bytes), cmr),
+                Ok(Err(e)) => format!("err {}", drive::first_line(&e)),
+                Err(p) => format!("panic {}", drive::panic_site(&p)),
+            }
+        };
+        for (name, text) in &templates {
+            let Ok(Ok(t)) = drive::guard(|| simfony::TemplateProgram::new(text.as_str())) else {
+                rep.machinery(format!("C19 template {name} does not compile"));
+                continue;
+            };
+            let params: Vec<(String, crate::lang::Ty)> = t.parameters().iter().map(|(n, ty)| (n.as_inner().to_string(), drive::from_sim_ty(ty))).collect();
+            let pick = |k: usize| -> Vec<(String, crate::lang::Val, crate::lang::Ty)> { params.iter().map(|(n, ty)| { let vs = crate::gen::vals(ty, 4); (n.clone(), vs[k % vs.len()].clone(), ty.clone()) }).collect() };
+            let (a, b) = (pick(1), pick(2));
+            for debug in [false, true] {
+                rep.state();
+                let fresh = |args: &[(String, crate::lang::Val, crate::lang::Ty)]| line(&simfony::TemplateProgram::new(text.as_str()).expect("compiled above"), args, debug);
+                let (fa, fb) = (fresh(&a), fresh(&b));
+                let clone = t.clone();
+                let steps = [("A", line(&t, &a, debug), &fa), ("B after A", line(&t, &b, debug), &fb), ("A after A, B", line(&t, &a, debug), &fa), ("B on a clone taken before", line(&clone, &b, debug), &fb), ("A on a clone taken after", line(&t.clone(), &a, debug), &fa)];
+                for (what, got, want) in steps {
+                    rep.transition(1);
+                    rep.eval(2);
+                    rep.trace(1);
+                    rep.nontrivial(1);
+                    if got != **want {
+                        rep.violation(
+                            "C19:instantiate-depends-on-history",
+                            format!("{name} (debug={debug}): instantiating with map {what} on a template that was instantiated before gives {}, a template without history gives {}", got.chars().take(40).collect::<String>(), want.chars().take(40).collect::<String>()),
+                            json!({"kind": "determinism", "program": text, "debug": debug, "where": "one template object, several argument maps", "step": what}),
+                        );
+                    } else {
+                        rep.class("instantiate-history-independent");
+                    }
+                }
+            }
+        }
+    }
     // (2) separately started processes with chosen hash seeds
     let exe = std::env::current_exe().unwrap();
     let mut orders = BTreeSet::new();
